@@ -64,7 +64,7 @@ def replay_zmk(parts, master=None, kcvkeys=None):
     x = 0
     for p in parts:
         x ^= int(p, 16)
-    want = '%032x' % x
+    want = '%0*x' % (max(len(p) for p in parts), x)
     clear, kcv = key.get_zone_master_key(*parts)
     if clear != want:
         return True, 'combined key %s, XOR is %s' % (clear, want), 'C14/zmk-xor'
